@@ -10,4 +10,7 @@ open Strengths.Gen.PyNumeric
 limited number of digits (the model computes its values exactly and its texts through `repr`) -/
 theorem constants_full_precision : fullPrecision inv_constants = true := by decide +kernel
 
+/-- `constants.py` takes no maximum / minimum / absolute value and swallows no exception: nothing it computes is clamped -/
+theorem constants_no_clamping : clamp_constants = [] := by decide +kernel
+
 end Strengths.PyNumeric
